@@ -583,3 +583,8 @@ _add('C17', 'EC single checks (Props/C17Ec.lean, 14 theorems; review finding F12
 _add('C12', 'Props/C12Errors.lean (29 theorems; review finding F11): for every modelled test the exact set of arguments for which it raises, and which exception (frequency, runs, block frequency, longest runs, large rank, Serial / ApEn incl. defaults n < 2 / n < 3, LinearComplexity and Scatter relative to the BM oracle, UniversalImpl / Universal, NonOverlappingTemplateMatching as a function incl. the default ladder, OverlappingTemplateMatching, BinaryMatrixRank for every shape, RandomWalk). '
             'Three exceptions are decided by a floating-point underflow and are explicit oracles of the model (Model/NistFloat.lean), recorded from the real run and quantified over in the theorems: ChiSquare rejecting the float RankDistribution (e.g. shapes (8,300,5), (40,40,33), (2,1100,1)) or the float overlapping-template matrix power (m >= 1071) with ValueError, and RandomWalk dividing by 0.0 for max_cnt >= 1075 when J >= 500. With a clean oracle the float-aware functions equal the exact ones (clean_oracle); the oracle never alters a result, it can only turn it into an error. '
             'WHEN the floats underflow is not proved (oracle + generated shapes on both sides of each boundary). This is the documented ChiSquare validation ("all expected probabilities should be strictly larger than 0.0"; the test is statistically void there) and not counted as a violation of C12. Preconditions: n < 2^1023 (Frequency(0, 2**1100) raises OverflowError); optional parameters >= 1 (BinaryMatrixRank with k = 0 and r = c >= 31 returns nan: observation, patch fixes/rank-k-zero-nan.diff proposed, not applied).')
+
+# second review (M9): properties whose MAIN clause rests on an oracle / heuristic / distribution are labelled as mixed, like C07
+CATEGORY['C05'] = 'other'   # LLL returns the planted vector; low-Hamming-weight heuristic
+CATEGORY['C08'] = 'other'   # LLL returns the planted row
+CATEGORY['C13'] = 'other'   # sentences 1-2 are distributional: search only
